@@ -21,7 +21,7 @@ func GenCfg(t *rapid.T) Cfg {
 }
 
 func GenOps(t *rapid.T, max int, pauses bool) []Op {
-	kinds := []string{"write", "write", "write", "write", "write", "write", "write", "write", "write", "write", "write", "write", "reopen", "reopen", "rename", "foreign", "nofmt", "touch", "restart", "restart+reopen", "reopen+idle", "restart+reopen+idle"}
+	kinds := []string{"write", "write", "write", "write", "write", "write", "write", "write", "write", "write", "write", "write", "reopen", "reopen", "rename", "foreign", "nofmt", "touch", "restart", "restart+reopen", "reopen+idle", "restart+reopen+idle", "wipe+reopen"}
 	if pauses {
 		kinds = append(kinds, "pause")
 	}
@@ -35,6 +35,8 @@ func GenOps(t *rapid.T, max int, pauses bool) []Op {
 			return Op{K: "write", Data: rapid.SliceOfN(rapid.Byte(), n, n).Draw(t, "data")}
 		case "nofmt":
 			return Op{K: "write", NoFormat: true, Data: []byte("x")}
+		case "foreign":
+			return Op{K: "foreign", PauseMs: rapid.IntRange(0, 5).Draw(t, "foreignName")}
 		case "pause":
 			return Op{K: "pause", PauseMs: rapid.SampledFrom([]int{0, 5, 20, 34, 45}).Draw(t, "ms")}
 		default:
